@@ -69,6 +69,79 @@ pub fn expected_header(json: &J) -> Vec<u8> {
 // ---------------------------------------------------------------------------------------------
 // (A) header + body over the corpus
 
+/// Records handed over bare in a union position (accepted by validation; the writer supplies the branch
+/// index): every sequence of three messages over {bare, wrapped} x two values on ONE writer; each message
+/// must be, byte for byte and in its returned length, the message a fresh writer produces for the wrapped
+/// value, and must read back as the wrapped value.
+fn part_a_bare(st: &mut Stats) {
+    use apache_avro::types::Value;
+    let inner_def = r#"{"type":"record","name":"Inner","fields":[{"name":"x","type":"int"}]}"#;
+    let texts = [
+        format!(r#"{{"type":"record","name":"Outer","fields":[{{"name":"inner","type":["null",{inner_def}]}},{{"name":"n","type":"int"}}]}}"#),
+        format!(r#"["null",{inner_def}]"#),
+        format!(r#"{{"type":"array","items":["null",{inner_def}]}}"#),
+    ];
+    let inner = |x: i32| Value::Record(vec![("x".into(), Value::Int(x))]);
+    let wrap = |x: i32| Value::Union(1, Box::new(inner(x)));
+    for (ti, text) in texts.iter().enumerate() {
+        let Ok(schema) = Schema::parse_str(text) else {
+            st.outcome("schema-not-accepted");
+            continue;
+        };
+        let outer = |i: Value| Value::Record(vec![("inner".into(), i), ("n".into(), Value::Int(3))]);
+        let pairs: Vec<(Value, Value)> = match ti {
+            0 => [1, -70].iter().map(|&x| (outer(inner(x)), outer(wrap(x)))).collect(),
+            1 => [1, -70].iter().map(|&x| (inner(x), wrap(x))).collect(),
+            _ => vec![(Value::Array(vec![inner(1), inner(2), inner(3)]), Value::Array(vec![wrap(1), wrap(2), wrap(3)])), (Value::Array(vec![inner(9)]), Value::Array(vec![wrap(9)]))],
+        };
+        let fresh = |v: &Value| -> Option<Vec<u8>> {
+            let mut out = vec![];
+            GenericSingleObjectWriter::new_with_capacity(&schema, 8).and_then(|mut w| w.write_value_ref(v, &mut out)).ok()?;
+            Some(out)
+        };
+        let Ok(reader) = GenericSingleObjectReader::builder().schema(schema.clone()).build() else { continue };
+        for code in 0..64usize {
+            let seq = [code % 4, code / 4 % 4, code / 16];
+            st.states += 1;
+            st.evaluations += 1;
+            let Ok(mut w) = GenericSingleObjectWriter::new_with_capacity(&schema, 8) else { continue };
+            let mut bad: Option<String> = None;
+            for (k, &a) in seq.iter().enumerate() {
+                st.transitions += 2;
+                let (bare, wrapped) = &pairs[a / 2];
+                let given = if a % 2 == 0 { bare } else { wrapped };
+                let Some(expect) = fresh(wrapped) else {
+                    bad = Some("a fresh writer refuses the wrapped value".into());
+                    break;
+                };
+                let mut out = vec![];
+                match guarded(|| w.write_value_ref(given, &mut out)) {
+                    Ok(Ok(n)) if out == expect && n == out.len() => {}
+                    other => {
+                        bad = Some(format!("message {} ({}): returned {:?}, wrote {}, a fresh writer given the wrapped value writes {}", k + 1, if a % 2 == 0 { "bare record" } else { "wrapped" }, other, hex(&out), hex(&expect)));
+                        break;
+                    }
+                }
+                let mut cur: &[u8] = &out;
+                if !matches!(guarded(|| reader.read_value(&mut cur)), Ok(Ok(g)) if g == *wrapped && cur.is_empty()) {
+                    bad = Some(format!("message {} does not read back as the wrapped value", k + 1));
+                    break;
+                }
+            }
+            match bad {
+                None => {
+                    st.outcome("ok");
+                    st.class(format!("bare|{ti}|{code}"));
+                }
+                Some(what) => {
+                    st.outcome("bare-record-message-differs");
+                    st.violate(3u64 << 60 | (ti as u64) << 8 | code as u64, "a record handed over bare in a union position: the message on a reused writer is not the message a fresh writer produces for the wrapped value", json!({"schema": text, "sequence": format!("{seq:?} (even = bare, odd = wrapped; value index = n / 2)"), "observed": what}), json!({"part": "A-bare", "schema": text, "sequence": seq}));
+                }
+            }
+        }
+    }
+}
+
 fn part_a(sc: &Sc, st: &mut Stats) {
     if has_logical(&sc.json) {
         // the canonical form of logical types is C12's subject (and a recorded deviation there)
@@ -480,6 +553,11 @@ pub fn run(tier: Tier, replay: Option<&J>) -> i32 {
         part_b(depth, &mut s);
         st = st.merge(s);
     }
+    if part.is_none() || part.as_deref() == Some("A-bare") {
+        let mut s = Stats::default();
+        part_a_bare(&mut s);
+        st = st.merge(s);
+    }
     if part.is_none() || part.as_deref() == Some("C") {
         let mut s = Stats::default();
         part_c(&mut s);
@@ -489,7 +567,7 @@ pub fn run(tier: Tier, replay: Option<&J>) -> i32 {
         id: "C18".into(),
         tier,
         level: "model_checking",
-        rule: "(A) every (schema without logical types, value) of the corpus: message == C3 01 + LE(CRC-64-AVRO(refpcf(schema text))) + refbin(value) and reads back; (B) every sequence up to the depth bound over {short, medium, long message, short-writing sink, value failing validation, value failing in the encoder, sink Err, sink Ok(0)} on ONE GenericSingleObjectWriter, each emitted message compared with the standalone reference message and read by the generic and typed readers; (C) all 80 single-bit header alterations and truncations to 0..9 bytes over 4 schemas incl. zero-width datums, with a counting reader. A class is a distinct history ending in a successful write after a failed/long one, a (schema shape, length) pair or a rejected alteration".into(),
+        rule: "(A) every (schema without logical types, value) of the corpus: message == C3 01 + LE(CRC-64-AVRO(refpcf(schema text))) + refbin(value) and reads back; records handed over bare in a union position: every sequence of three messages over {bare, wrapped} x two values on one writer equals the fresh-writer message of the wrapped value; (B) every sequence up to the depth bound over {short, medium, long message, short-writing sink, value failing validation, value failing in the encoder, sink Err, sink Ok(0)} on ONE GenericSingleObjectWriter, each emitted message compared with the standalone reference message and read by the generic and typed readers; (C) all 80 single-bit header alterations and truncations to 0..9 bytes over 4 schemas incl. zero-width datums, with a counting reader. A class is a distinct history ending in a successful write after a failed/long one, a (schema shape, length) pair or a rejected alteration".into(),
         bounds: json!({"history_depth": depth, "ops": OPS.len(), "corpus_depth": corpus_depth, "schemas": corpus.len()}),
         assumptions: vec!["refpcf / CRC-64-AVRO / refbin are independent implementations, self-tested against published vectors".into(), "schemas with logical types are excluded from (A): their canonical form is judged by C12".into()],
         exhaustive: replay.is_none(),
